@@ -68,7 +68,10 @@ pub fn check(cx: &Cx, rep: &mut Report) {
     // R3: dependants react to a termination nobody awaited (service tags: several instances per tag)
     for k in [1u32, 2] {
         let tag = 9000 + k;
-        let tasks: Vec<u32> = ix.tasks_of_tag.get(&tag).cloned().unwrap_or_default();
+        let mut tasks: Vec<u32> = ix.tasks_of_tag.get(&tag).cloned().unwrap_or_default();
+        for d in cx.prog.actors.iter().filter(|d| d.k as u32 == k) {
+            tasks.extend(ix.tasks_of_tag.get(&d.tag).cloned().unwrap_or_default());
+        }
         // instance end stamps
         let ends: Vec<(u32, u64)> = tasks.iter().filter_map(|t| ix.task_end.get(t).map(|e| (*t, e.0))).collect();
         for o in ix.ops.iter().filter(|o| o.tag == tag && o.executed()) {
@@ -131,7 +134,14 @@ pub fn check(cx: &Cx, rep: &mut Report) {
         }
         // all default-spawned instances of that type must have ended before o began
         let tag = 9000 + k;
-        let tasks: Vec<u32> = ix.tasks_of_tag.get(&tag).cloned().unwrap_or_default();
+        let mut tasks: Vec<u32> = ix.tasks_of_tag.get(&tag).cloned().unwrap_or_default();
+        for d in cx.prog.actors.iter().filter(|d| d.k as u32 == k) {
+            tasks.extend(ix.tasks_of_tag.get(&d.tag).cloned().unwrap_or_default());
+        }
+        // the instance being registered is alive, of course: leave it out
+        let own_obj = ix.ops.iter().filter(|p| p.c == o.c && p.op == OpK::SpawnActor && p.b < o.b).filter_map(|p| if let Some(Res::Inst { obj, slot, .. }) = &p.res { if *slot == o.slot { Some(*obj) } else { None } } else { None }).last();
+        let own_task = own_obj.and_then(|ob| ix.cbs.iter().find(|c| c.obj == ob).map(|c| c.actor));
+        tasks.retain(|t| Some(*t) != own_task);
         let all_dead = !tasks.is_empty() && tasks.iter().all(|t| ix.task_end.get(t).map(|e| e.0 < o.b).unwrap_or(false));
         if all_dead {
             rep.premise("C14.R3.register_after_unawaited_termination");
